@@ -206,25 +206,134 @@ def oracle_all(ctx, streams):
                 ctx.violation(found[0], found[1], found[2], True)
 
 
+def class_counters(ctx):
+    """Branch / class counters of the generated cases (evidence `counters`): which branches of the real code the run
+    went through, read from the ops and the implementation's own output lines."""
+    from fractions import Fraction
+
+    def pair(stream):
+        g = os.path.join(ctx.work, "%s.gen.ops" % stream)
+        i = os.path.join(ctx.work, "%s.run.impl" % stream)
+        if not (os.path.exists(g) and os.path.exists(i)):
+            return []
+        return list(zip(ctx.read_lines(g), ctx.read_lines(i)))
+
+    def c(key, by=1):
+        ctx.count("class." + key, by)
+
+    for stream in ("cache", "citadel"):
+        prev_ca = 0
+        for op, out in pair(stream):
+            t = op.split()
+            if t[0] == "case":
+                prev_ca = 0
+                if len(t) >= 7:
+                    r, j = Fraction(int(t[3]), int(t[4])), Fraction(int(t[5]), int(t[6]))
+                    c("%s.config.%s" % (stream, "bucketable" if (j <= Fraction(1, 16) and (r * 4).denominator == 1) else "jitter-spans-buckets"))
+                    c("%s.config.ratio-%s-jitter" % (stream, "gt" if r > j else "le"))
+                if len(t) == 8:
+                    c("%s.variant.%s" % (stream, t[7]))
+                continue
+            f = dict(x.split("=", 1) for x in out.split() if "=" in x)
+            ca = int(f.get("ca", prev_ca) or 0)
+            if t[0] in ("gen", "cgen"):
+                res = "default" if t[1] == "w" else "ROOTCA"
+                if ca == prev_ca:
+                    c("%s.gen.%s.%s" % (stream, res, "hit" if out.startswith("ok") else "error-without-ca"))
+                elif out.startswith("ok"):
+                    c("%s.gen.%s.miss-ok" % (stream, res))
+                    if t[0] == "gen" and len(t) > 3 and int(t[3]) <= 0:
+                        c("%s.gen.ttl<=0" % stream)
+                    if t[0] == "gen" and len(t) > 5 and t[5] != "-":
+                        c("%s.gen.published-bundle" % stream)
+                else:
+                    c("%s.gen.%s.miss-error.%s" % (stream, res, t[2]))
+                if "R" in f.get("ev", ""):
+                    c("%s.gen.root-change-announced" % stream)
+                if f.get("push") == "P":
+                    c("%s.gen.task-pushed" % stream)
+            elif t[0] == "fire":
+                c("%s.fire.%s" % (stream, {"clear": "own-task-clears", "noop": "stale-task-noop"}.get(out.split()[0], "absent-or-already-run")))
+            elif t[0] == "bundle":
+                c("%s.bundle.%s" % (stream, "changed" if out.startswith("changed=1") else "same-skipped"))
+            prev_ca = ca
+    for op, out in pair("rotate"):
+        t = op.split()
+        if t[0] != "rot":
+            continue
+        life = int(t[2]) - int(t[1])
+        r, j = Fraction(int(t[3]), int(t[4])), Fraction(int(t[5]), int(t[6]))
+        c("rotate.lifetime.%s" % ("negative" if life < 0 else "zero" if life == 0 else "sub-microsecond" if life < 1000 else "positive"))
+        c("rotate.ratio.%s" % ("below-0" if r < 0 else "above-1" if r > 1 else "in-[0,1]"))
+        c("rotate.jitter.%s" % ("zero" if j == 0 else "ratio<=jitter" if r <= j else "ratio>jitter"))
+        c("rotate.created.%s" % ("in-future" if int(t[1]) > 0 else "now-or-past"))
+    for op, out in pair("conc"):
+        t = op.split()
+        if t[0] == "conc":
+            n, k = int(t[1]), int(t[2])
+            c("conc.%s" % ("all-calls-fail" if k >= n else "some-calls-fail" if k > 0 else "ca-healthy"))
+            c("conc.kinds.%s" % ("mixed" if ("w" in t[4] and "r" in t[4]) else "default-only" if "w" in t[4] else "ROOTCA-only"))
+        elif t[0] in ("stress", "outdir"):
+            c("conc.%s" % t[0])
+    for op, out in pair("sds"):
+        t = op.split()
+        if t[0] == "case":
+            continue
+        f = out.split()
+        ev = f[0][3:] if f and f[0].startswith("ev=") else ""
+        if "R" in ev and t[0] in ("rotate", "sub", "resub"):
+            c("sds.root-change-pushed")
+        if ":closed:" in out:
+            c("sds.stream-ended-by-failing-ca(lines)")
+        if t[0] == "sub":
+            c("sds.sub.%s" % t[2])
+        if t[0] == "rotate":
+            c("sds.rotate.%s" % ("cache-empty" if ev == "-" else "with-subscribers" if ":n=" in out else "no-subscriber"))
+    for op, out in pair("file"):
+        t = op.split()
+        if t[0] == "case":
+            c("file.volume.%s" % ("kube-symlink" if len(t) == 4 else "regular-files"))
+        elif t[0] in ("fgen", "fwrite"):
+            c("file.%s.%s" % (t[0], t[1]))
+    for op, out in pair("timer"):
+        t = op.split()
+        if t[0] == "rt":
+            c("timer.%s.ttl%s" % ("stale-scenario" if t[4] == "1" else "fresh-scenario", t[1]))
+
+
 def run(ctx):
-    ctx.rule = ("rotate: cases = random (created, expire, ratio, jitter bound) incl. boundary lifetimes 0/1/2/3 ns .. 10 y and "
-                "2^53+1 ns, ratios/jitters from tables, random, ratio = jitter +- 1 ulp, out-of-range; 3 real calls each. "
-                "cache: cases = random scripts (1-30 ops) of GenerateSecret(default|ROOTCA) with per-call CA behaviour (TTL -1h..90d, "
-                "signer, bundle, 4 error kinds), UpdateConfigTrustBundle, rotation callbacks aimed at current/stale/used/absent entries; "
-                "ratio in quarters, jitter in {0, 0.01, 1/16}. conc: N=1..12 goroutines, 0-3 failing CA calls, slow CA; plus two stress ops (GenerateSecret || rotation tasks || bundle updates). "
-                "citadel: real CitadelClient against an in-process gRPC CA (normal / three-element / leaf-only / empty chain, gRPC error). "
-                "file: file-mounted key/cert/root, GenerateSecret / atomic file replacement / bundle. sds: real sds.Server on its unix socket with "
-                "0-5 gRPC subscribers, subscribe / unsubscribe / changed resource set / drop / rotate / stale task / bundle / failing CA / changing root. timer: real delayed queue, 3-5 s lifetimes (first delay > 1 s), plus a stress of the queue (100k single pushes on an empty heap, 25 x (one 100 ms task + burst of 20)). distinct = hash of (ops, implementation outputs) "
-                "(rotate: inputs only); non-trivial = at least one op")
+    ctx.rule = ("rotate: random (created, expire, ratio, jitter bound) incl. boundary lifetimes 0/1/2/3 ns .. 10 y and 2^53+1 ns, "
+                "ratios/jitters from tables, random, ratio = jitter +- 1 ulp, out-of-range; 3 real calls each. "
+                "cache: random scripts (1-30 ops) of GenerateSecret(default|ROOTCA) with per-call CA behaviour (TTL -1h..90d, signer, "
+                "published bundle, 4 error kinds), UpdateConfigTrustBundle, rotation callbacks aimed at current/stale/used/absent entries; "
+                "ratio in {0, .1, .25, 1/3, .5, .6, .75, .9, 1} x jitter in {0, .01, 1/16, .3, .5, 1}; client variants: OUTPUT_CERTS = directory "
+                "of the cert paths, RSA keys, PKCS#8 keys, no CA client. conc: N=1..12 goroutines, 0-3 failing CA calls, slow CA; 2-3 stress ops "
+                "(GenerateSecret || rotation tasks, some inside a slow PushDelayed || bundle updates incl. repeated and empty ones; failing CA, "
+                "alternating roots, published bundles, TTL < 0; ratio/jitter by seed) and 1 outdir op (OutputKeyCertToDir, bundle updates, "
+                "failing CA). citadel: real CitadelClient against an in-process gRPC CA (normal / three-element / leaf-only / empty chain, gRPC "
+                "error), ratios as cache. file: file-mounted key/cert/root as regular files or a kubelet-style ..data symlink volume; "
+                "GenerateSecret under the default, file-cert: and file-root: names, atomic replacement, bundle; one fstress (replacement "
+                "concurrent with GenerateSecret, half-written certificates). sds: real sds.Server with 0-5 gRPC subscribers: subscribe (one or "
+                "two resources), unsubscribe, changed resource set, drop, rotate, stale task, bundle (with / without default subscriber), "
+                "failing CA, changing root. timer: real delayed queue, 3-6 s lifetimes (first delay > 1 s, one shape with jitter 0.1), a queue "
+                "stress in two shapes, 1500 zero-delay rotations on the client's own queue. distinct = hash of (ops, implementation "
+                "outputs) (rotate: inputs only); non-trivial = at least one op. Branch / class counts: counters class.*")
     ctx.assumptions = [
         "float64 rounding in rotateTime is not modelled; real results are accepted within tol(L) = |L|/2^50 + 2 ns of the exact interval",
-        "sync.Mutex / RWMutex give atomic critical sections; time.Now() is monotone non-decreasing; two CA responses never carry the same CreatedTime",
+        "sync.Mutex / RWMutex give atomic critical sections; time.Now() is monotone non-decreasing",
+        "CreatedTime values of different CA responses differ (explicit hypothesis DistinctCreated of timer_clears_only_own_cert; witness without it)",
         "the CA client signs the CSR it is given (certificate public key = CSR public key); CA behaviour is otherwise arbitrary input",
-        "no file-mounted certificates (generateFileSecret answers 'not from file'), OutputKeyCertToDir unset",
+        "the jitter value drawn by rand is admissible for the configured bound (hypothesis of scheduled_strictly_before_expiry_step; the model's step accepts any value)",
         "the scheduled delay is counted from the instant rotateTime read the clock; the delayed queue adds its own enqueue latency",
+        "specific interleavings are not forced on the real code (no gate hooks): concurrency is tied by uncontrolled stress runs asserting the invariants' observables",
+        "file-mounted certificates, OutputKeyCertToDir, the SDS server, the Citadel client and the delayed queue are observed (streams file / outdir / sds / citadel / timer), not modelled line by line; file paths are modelled as 'returns the file pair'",
+        "almost all runs use ECDSA P-256 keys (RSA 2048 and PKCS#8 only in a few cache-stream cases)",
+        "not exercised: sdsservice toEnvoySecret cryptomb / QAT / CRL branches, FileMountedCerts / ServeOnlyFiles, FileRootSystemCACert, file removal",
     ]
     ctx.trusted.append("security/pkg/nodeagent/cache/zz_verif_c18.go (verif-tagged accessors: rotateTime, queue injection, cache reads)")
     ctx.trusted.append("the fake CA (real x509 signing of the real CSR), the recording delayed queue and the recording secret handler of harness/c18")
+    ctx.trusted.append("the in-process gRPC IstioCertificateService behind the real CitadelClient, and the plain gRPC SDS test client (ACK / unsubscribe / resubscribe conventions) of harness/c18")
+    ctx.trusted.append("Linux inotify / fsnotify behaviour for atomic replacement and ..data symlink swaps (stream file), x509 second-granularity NotAfter")
     ctx.lean_prove(THEOREMS)
     if not ctx.build_drv():
         return
@@ -237,6 +346,7 @@ def run(ctx):
     ctx.diff_stream("file", ctx.n(40, 2000), oracle=oracle)
     ctx.diff_stream("sds", ctx.n(32, 1500), oracle=oracle)
     ctx.diff_stream("timer", ctx.n(8, 300), oracle=timer_oracle)
+    class_counters(ctx)
     oracle_all(ctx, ["rotate", "cache", "conc", "citadel", "file", "sds", "timer"])
 
 
@@ -276,14 +386,18 @@ MANIFEST = {
                    "monotonicity, and the hull of admissible delays used by the tie. (2) SecretManagerClient is modelled as processes "
                    "interleaving at atomic steps (GenerateSecret for both resources, rotation callbacks, UpdateConfigTrustBundle, arbitrary CA "
                    "behaviour); pairs of writes whose order matters to a subscriber are separate steps (store then push the task, empty the "
-                   "cache then notify, store the root / the bundle then announce). Sixteen invariants are proved for every schedule "
+                   "cache then notify, store the root / the bundle then announce). Fifteen invariants are proved for every schedule "
                    "(inv_reachable) and give: single_flight (<= 1 successful CA call between two cache clears, same pair for all calls inside "
                    "one epoch; with a failing CA the text's 'at most one signing request' is false - witness - and the exact bound is one plus "
                    "the failed ones); every cached certificate has its renewal queued, still pending, with delay <= time to expiry, or its "
                    "storer is between store and push (cached_cert_has_rotation_scheduled, store_then_push); the `default` callback never sees "
                    "the certificate to be rotated (rotation_event_after_clear); `ROOTCA` callbacks are made with certRoot / configTrustBundle "
                    "already updated (root_change_announced_step, bundle_event_after_store); failure_not_sticky; root_change_announced (both "
-                   "resources); root_includes_ca incl. the interleaved two-read path. 'Stale callbacks are no-ops' is proved under the "
+                   "resources); failure_not_sticky and root_includes_ca for sequential callers (Quiet); for the interleaved two-read ROOTCA path only "
+                   "rootca_answer_interleaved: the answer is the union of the roots of the certificate cached at the call's FIRST read with the "
+                   "anchors configured at its second read - a certificate stored in between is not reflected "
+                   "(rootca_answer_can_be_stale_witness). A certificate obtained before a bundle update and stored after its clear is not "
+                   "re-signed (lost_resign_witness; no theorem claims a re-sign). 'Stale callbacks are no-ops' is proved under the "
                    "explicit hypothesis that CreatedTime values are distinct (timer_clears_only_own_cert; witness without it). Strictness at "
                    "system level holds when the drawn jitter is admissible for the configured bound (scheduled_strictly_before_expiry_step). "
                    "pair_consistent is structural in the model; that the REAL key and leaf belong together rests on the oracle's public-key "
@@ -296,7 +410,7 @@ MANIFEST = {
                    "failing CA, changing roots) asserting the observables of the invariants; OutputKeyCertToDir under concurrency; 200 scripts "
                    "through the real CitadelClient and an in-process gRPC CA; 40 scripts on file-mounted certificates with real fsnotify "
                    "events; 32 scripts through the real sds.Server with gRPC subscribers; the real delayed queue: 8 timed scenarios, a stress "
-                   "in two shapes, and 2500 zero-delay rotations on the queue NewSecretManagerClient creates itself); the verif-tagged accessor "
+                   "in two shapes, and 1500 zero-delay rotations on the queue NewSecretManagerClient creates itself); the verif-tagged accessor "
                    "file security/pkg/nodeagent/cache/zz_verif_c18.go. Assumed: mutexes give atomic sections, the CA signs the CSR it is given, "
                    "CreatedTime values of different CA responses differ (explicit hypothesis of the stale-callback theorem), float64 rounding "
                    "stays within the tolerance. Observed but not modelled line by line: sdsservice.go, citadel/client.go, pkg/queue/delay.go, "
